@@ -8,6 +8,7 @@ package funcs
 import (
 	"fmt"
 	"math"
+	"reflect"
 	"strings"
 	"time"
 
@@ -181,6 +182,14 @@ func setMeasurement(in any, val string) error {
 }
 
 func doCast(result interface{}, tInfo string) (interface{}, ast.DType) {
+	switch result.(type) {
+	case []any, map[string]any:
+		// a list or map converts to the zero value of the target type, as before, but
+		// without handing it to the cast package: its error text formats the whole
+		// value, which never ends for a value that contains itself
+		result = nil
+	}
+
 	switch strings.ToLower(tInfo) {
 	case "bool":
 		return conv.ToBool(result), ast.Bool
@@ -253,4 +262,49 @@ func reIndexFuncArgs(fnStmt *ast.CallExpr, keyList []string, reqParm int) error 
 
 	fnStmt.Param = ret
 	return nil
+}
+
+// containsItself reports whether a list or map value contains itself, directly
+// or through its elements (`a[0] = a`). Formatting such a value with the fmt
+// package never ends: the process dies of stack exhaustion.
+func containsItself(v any) bool {
+	return walksIntoItself(v, map[uintptr]bool{})
+}
+
+func walksIntoItself(v any, onPath map[uintptr]bool) bool {
+	var id uintptr
+	switch x := v.(type) {
+	case []any:
+		if len(x) == 0 {
+			return false
+		}
+		id = reflect.ValueOf(x).Pointer()
+	case map[string]any:
+		if len(x) == 0 {
+			return false
+		}
+		id = reflect.ValueOf(x).Pointer()
+	default:
+		return false
+	}
+	if onPath[id] {
+		return true
+	}
+	onPath[id] = true
+	defer delete(onPath, id)
+	switch x := v.(type) {
+	case []any:
+		for _, e := range x {
+			if walksIntoItself(e, onPath) {
+				return true
+			}
+		}
+	case map[string]any:
+		for _, e := range x {
+			if walksIntoItself(e, onPath) {
+				return true
+			}
+		}
+	}
+	return false
 }
